@@ -622,6 +622,8 @@ class StmtMixin:
                     vals[f] = self.lift(kwargs[f])
                 else:
                     self.oos(node, f"record field {f} missing")
+                if k == "optint" and not isinstance(vals[f], self.E.VOptInt):
+                    vals[f] = self.E.VOptInt(self.E.unwrap(vals[f], "optint"))
             return VRec(name, vals)
         bases = [ast.unparse(b) for b in cls_node.bases]
         if any(b.endswith("Error") or b in ("Exception", "SyntaxError") for b in bases):
